@@ -917,12 +917,20 @@ class CeiloChunk(AbstractChunk):
         if len(self.groups) > 0:
             id_offset = max(id_offset, int(self.groups['cluster_id'].max()) + 1)
 
+        # The base height of the sub-layers depends on the time ordering of the hits (see
+        # BASE_LVL_LOOKBACK_PERC). Use the very same ordering as metarize() does when it computes
+        # the base heights, so that sub-layers get (re-)merged on the basis of the heights that
+        # will eventually be reported, no matter the row order of the input data.
+        time_sorted_index = self.data.sort_values('dt').index
+
         # Loop through every group, and look for sub-layers in it ...
         for ind in range(len(self.groups)):
 
-            # Let's extract the heights of all the hits in this group ...
-            gro_heights = self.data.loc[self.data.loc[:, 'group_id'] ==
-                          self._groups.at[ind, 'cluster_id'], 'height'].to_numpy()
+            # Let's extract the heights of all the hits in this group, ordered in time ...
+            gro_index = time_sorted_index[
+                (self.data.loc[time_sorted_index, 'group_id'] ==
+                 self._groups.at[ind, 'cluster_id']).to_numpy(dtype=bool)]
+            gro_heights = self.data.loc[gro_index, 'height'].to_numpy()
 
             # Only look for multiple layers if it is worth it ...
             # 1) Layer density is large enough
@@ -969,9 +977,7 @@ class CeiloChunk(AbstractChunk):
 
             # If I need to split it, assign suitable layer ids
             if ncomp > 1:
-                self.data.loc[self.data.loc[:, 'group_id'] ==
-                              self._groups.at[ind, 'cluster_id'], 'layer_id'] = \
-                    id_offset+10*ind+sub_layers_id
+                self.data.loc[gro_index, 'layer_id'] = id_offset+10*ind+sub_layers_id
 
         # Deal with the points that have not been assigned a layer id yet
         to_fill = self.data['layer_id'].isna()
